@@ -193,6 +193,44 @@ type BfCase struct {
 	Scheme string `json:"scheme,omitempty"` // see nameScheme
 }
 
+// genUniqueRepeated: an exactly-one group in which a name is written twice or more (bf.Unique takes
+// any list of names; its meaning counts every occurrence), alone, under a conjunction / disjunction
+// with other literals, or (when allowed) under a negation.
+func genUniqueRepeated(r *Rng, tier string, positiveOnly bool) BfCase {
+	k := r.Range(1, 6)
+	sz := r.Range(2, 4)
+	if r.Chance(1, 4) {
+		sz = r.Range(5, 8)
+	}
+	names := make([]int, sz)
+	for i := range names {
+		names[i] = r.Intn(k)
+	}
+	names[r.Intn(sz)] = names[(r.Intn(sz-1)+1+r.Intn(sz))%sz] // usually at least one repetition
+	u := FNode{Op: "u", Names: names}
+	f := u
+	lit := func() FNode {
+		v := FNode{Op: "v", Var: r.Intn(k)}
+		if r.Bool() {
+			return FNode{Op: "n", Kids: []FNode{v}}
+		}
+		return v
+	}
+	switch r.Intn(5) {
+	case 0:
+		f = FNode{Op: "a", Kids: []FNode{lit(), u}}
+	case 1:
+		f = FNode{Op: "o", Kids: []FNode{u, lit()}}
+	case 2:
+		f = FNode{Op: "a", Kids: []FNode{FNode{Op: "o", Kids: []FNode{lit(), u}}, lit()}}
+	case 3:
+		if !positiveOnly {
+			f = FNode{Op: "n", Kids: []FNode{u}}
+		}
+	}
+	return BfCase{K: k, F: f}
+}
+
 func genBfCase(r *Rng, tier string, positiveUnique bool) BfCase {
 	k := r.Range(1, 7)
 	if r.Chance(1, 4) {
@@ -301,6 +339,7 @@ func init() {
 				return res
 			}},
 		},
+		Extra: []ExtraGen{{Gen{Name: "unique-repeated-name", Make: func(r *Rng, tier string) interface{} { return genUniqueRepeated(r, tier, false) }}, 300, 6000}},
 		Run: runBfSolveCase,
 		Classify: func(d json.RawMessage) []string {
 			var c BfCase
@@ -321,6 +360,7 @@ func init() {
 			{Name: "two-unique-groups", Weight: 1, Make: func(r *Rng, tier string) interface{} { return genTwoUnique(r, tier) }},
 			{Name: "unique-large", Weight: 1, Make: func(r *Rng, tier string) interface{} { return genUniqueLarge(r, tier) }},
 		},
+		Extra: []ExtraGen{{Gen{Name: "unique-repeated-name", Make: func(r *Rng, tier string) interface{} { return genUniqueRepeated(r, tier, true) }}, 300, 6000}},
 		Run: runBfDimacsCase,
 		Cases:   defCases(4000, 100000),
 		Timeout: defDur(15*time.Second, 180*time.Second),
